@@ -10,7 +10,7 @@
 (* the remainder of the chain (that is the re-entrancy clause of C19).     *)
 (* Several requests (Qids) share the chain; all state is per request.      *)
 (***************************************************************************)
-EXTENDS Naturals, Sequences, FiniteSets, TLC
+EXTENDS Integers, Sequences, FiniteSets, TLC
 
 CONSTANTS Qids,      \* request identifiers
           MaxLen,    \* bound on the chain length
@@ -24,6 +24,7 @@ Prog(p) == CASE p = "pass"    -> <<"call", "ret">>            \* return what the
              [] p = "newctx"  -> <<"setCtx", "call", "ret">>  \* pass a derived context on
              [] p = "callerr" -> <<"call", "retErr">>         \* discard the continuation's result, return an error
              [] p = "thrice"  -> <<"call", "setMsg", "call", "setCtx", "call", "ret">>
+             [] p = "hedge"   -> <<"call", "keep", "setMsg", "call", "retKept">>   \* two invocations (the second with a replaced message), answer with the FIRST result
 
 Chains == UNION {[1..n -> Programs] : n \in 0..MaxLen}
 
@@ -33,9 +34,10 @@ VARIABLES chain,   \* chain[q]  the chain request q runs through (shared configu
           final    \* final[q]  <<"idle",0>>, <<"run",0>> while running, else <<kind, from>>
 vars == <<chain, stack, hist, final>>
 
-\* results are <<kind, from>>: kind "ok"/"err"/"none"; from = 0 for the core, s for stage s
+\* results are <<kind, from>>: kind "ok"/"err"/"none"; from = s for stage s; a result of the core is 0 - m where m is the token of the
+\* message the core was invoked with (0 for the original message): results of different invocations are values of their own
 NoRes == <<"none", 0>>
-Frame(s, c, m) == [s |-> s, pc |-> 1, c |-> c, m |-> m, k |-> "none", f |-> 0]
+Frame(s, c, m) == [s |-> s, pc |-> 1, c |-> c, m |-> m, k |-> "none", f |-> 0, kk |-> "none", kf |-> 0]
 
 Init == /\ chain = [q \in Qids |-> <<>>]
         /\ stack = [q \in Qids |-> <<>>]
@@ -86,7 +88,7 @@ Call(q) ==
        IN IF fr.s = Len(chain[q])
           THEN \* innermost stage: the continuation is the core (transport / handleRequest / executeItem)
                /\ hist' = [hist EXCEPT ![q] = Append(@, [e |-> "core", c |-> fr.c, m |-> fr.m])]
-               /\ stack' = [stack EXCEPT ![q] = SetTop(@, [adv EXCEPT !.k = "ok", !.f = 0])]
+               /\ stack' = [stack EXCEPT ![q] = SetTop(@, [adv EXCEPT !.k = "ok", !.f = 0 - fr.m])]
           ELSE /\ hist' = [hist EXCEPT ![q] = Append(@, [e |-> "enter", s |-> fr.s + 1, c |-> fr.c, m |-> fr.m])]
                /\ stack' = [stack EXCEPT ![q] = Append(SetTop(@, adv), Frame(fr.s + 1, fr.c, fr.m))]
     /\ UNCHANGED <<chain, final>>
@@ -97,11 +99,15 @@ SetMsg(q) == /\ Running(q) /\ Op(q) = "setMsg"
 SetCtx(q) == /\ Running(q) /\ Op(q) = "setCtx"
              /\ stack' = [stack EXCEPT ![q] = SetTop(@, [Top(q) EXCEPT !.pc = @ + 1, !.c = Top(q).s])]
              /\ UNCHANGED <<chain, hist, final>>
+Keep(q) == /\ Running(q) /\ Op(q) = "keep"
+           /\ stack' = [stack EXCEPT ![q] = SetTop(@, [Top(q) EXCEPT !.pc = @ + 1, !.kk = Top(q).k, !.kf = Top(q).f])]
+           /\ UNCHANGED <<chain, hist, final>>
+RetKept(q) == Running(q) /\ Op(q) = "retKept" /\ Return(q, Top(q).kk, Top(q).kf)
 Ret(q)    == Running(q) /\ Op(q) = "ret"    /\ Return(q, Top(q).k, Top(q).f)
 RetOwn(q) == Running(q) /\ Op(q) = "retOwn" /\ Return(q, "ok", Top(q).s)
 RetErr(q) == Running(q) /\ Op(q) = "retErr" /\ Return(q, "err", Top(q).s)
 
-Step(q) == Call(q) \/ SetMsg(q) \/ SetCtx(q) \/ Ret(q) \/ RetOwn(q) \/ RetErr(q) \/ FinishEmpty(q)
+Step(q) == Call(q) \/ SetMsg(q) \/ SetCtx(q) \/ Keep(q) \/ RetKept(q) \/ Ret(q) \/ RetOwn(q) \/ RetErr(q) \/ FinishEmpty(q)
 Next == \E q \in Qids : \/ (final[q][1] = "idle" /\ \E ch \in Chains : Begin(q, ch))
                          \/ Step(q)
 Spec == Init /\ [][Next]_vars
@@ -137,14 +143,17 @@ TokensPassed(q) ==
     \A k \in 1..Len(hist[q]) :
         hist[q][k].e \in {"enter", "core"} =>
             /\ hist[q][k].c \in {0} \cup {s \in 1..Len(chain[q]) : chain[q][s] \in {"newctx", "thrice"}}
-            /\ hist[q][k].m \in {0} \cup {s \in 1..Len(chain[q]) : chain[q][s] \in {"newmsg", "thrice"}}
+            /\ hist[q][k].m \in {0} \cup {s \in 1..Len(chain[q]) : chain[q][s] \in {"newmsg", "thrice", "hedge"}}
             /\ hist[q][k].e = "enter" => hist[q][k].c < hist[q][k].s /\ hist[q][k].m < hist[q][k].s
 
 \* a chain of pass-through stages is transparent
 Transparent(q) ==
-    Done(q) /\ (\A s \in 1..Len(chain[q]) : chain[q][s] \in {"pass", "newmsg", "newctx"}) => final[q] = <<"ok", 0>>
+    Done(q) /\ (\A s \in 1..Len(chain[q]) : chain[q][s] \in {"pass", "newmsg", "newctx"}) => final[q][1] = "ok" /\ final[q][2] <= 0
+\* a stage that answers with the result of its first invocation returns that result, whatever later invocations produced
+FirstKept(q) ==
+    Done(q) /\ Len(chain[q]) >= 1 /\ chain[q][1] = "hedge" /\ (\A s \in 2..Len(chain[q]) : chain[q][s] = "pass") => final[q] = <<"ok", 0>>
 
-AllFor(q) == ExactlyOncePerInvocation(q) /\ Nested(q) /\ TokensPassed(q) /\ Transparent(q)
+AllFor(q) == ExactlyOncePerInvocation(q) /\ Nested(q) /\ TokensPassed(q) /\ Transparent(q) /\ FirstKept(q)
 Inv == \A q \in Qids : AllFor(q)
 
 History(q) == [chain |-> chain[q], hist |-> hist[q], final |-> final[q]]
